@@ -186,6 +186,9 @@ func (i *interpreter) storeTo(T types.Type, addr value, v value) {
 }
 
 func (i *interpreter) conv(t_dst, t_src types.Type, x value) value {
+	if o, ok := x.(*oslice); ok {
+		x = i.materialize(o)
+	}
 	if s, ok := x.(sv); ok {
 		if b, ok := t_dst.Underlying().(*types.Basic); ok {
 			if b.Kind() == types.String {
@@ -273,6 +276,14 @@ func (i *interpreter) makeSlice(instr *ssa.MakeSlice, lenv, capv value) value {
 	if ls, ok := lenv.(sv); ok {
 		// record a symbolic allocation obligation before concretising
 		i.symAlloc(ls)
+		if i.opaqueAlloc {
+			tElt := instr.Type().Underlying().(*types.Slice).Elem()
+			if _, scalar := scalarKindOf(tElt); scalar {
+				if cs, ok := capv.(sv); ok && cs.t == ls.t {
+					return i.newOpaque(tElt, i.int64Term(ls))
+				}
+			}
+		}
 	}
 	n := i.concInt(lenv)
 	c := i.concInt(capv)
@@ -311,6 +322,9 @@ func (i *interpreter) symAlloc(n sv) {
 }
 
 func (i *interpreter) slice(x, lo, hi, max value) value {
+	if o, ok := x.(*oslice); ok {
+		return i.oSlice(o, lo, hi, max)
+	}
 	var Len, Cap int
 	switch x := x.(type) {
 	case string:
@@ -440,6 +454,8 @@ func onlyLoadsAndStores(instr *ssa.IndexAddr) bool {
 func (i *interpreter) indexAddr(instr *ssa.IndexAddr, x, idx value) value {
 	var vec []value
 	switch x := x.(type) {
+	case *oslice:
+		return i.oIndexAddr(x, idx)
 	case []value:
 		vec = x
 	case *value: // *array
